@@ -312,7 +312,9 @@ class FortranAST:
     def check_file(self, obj_tree):
         errors = []
         tmp_list = self.scope_list[:]  # shallow copy
-        if self.none_scope is not None:
+        # For an INCLUDEd file none_scope is the scope of the including file, its
+        # diagnostics belong there
+        if self.none_scope is not None and self.none_scope.file_ast is self:
             tmp_list += [self.none_scope]
         for error in self.end_errors:
             if error[0] >= 0:
